@@ -42,6 +42,8 @@ pub enum Act {
     /// the remote peer asks the client for a block
     AskClient(u8),
     Have(u16),
+    /// a repeated bitfield from a connected peer (what it advertised before stays advertised for the harness)
+    Bitfield(u64),
 }
 
 #[derive(Clone, Debug, Serialize, Deserialize)]
@@ -75,7 +77,8 @@ fn strategy(tier: Tier) -> BoxedStrategy<Case> {
         1 => Just(Act::Disconnect),
         2 => any::<u64>().prop_map(Act::Join),
         2 => any::<u8>().prop_map(Act::AskClient),
-        1 => any::<u16>().prop_map(Act::Have),
+        2 => any::<u16>().prop_map(Act::Have),
+        1 => prop_oneof![Just(3u64), any::<u64>()].prop_map(Act::Bitfield),
     ];
     (pl, 1usize..=14)
         .prop_flat_map(move |(pl, n)| {
@@ -223,6 +226,16 @@ pub fn check(c: &Case) -> Outcome {
                         if let Some(p) = pick_live(*who) {
                             let i = idx(*i, n);
                             net.have(w, p, i);
+                        }
+                    }
+                    Act::Bitfield(bits) => {
+                        if let Some(p) = pick_live(*who) {
+                            // mode 3 of bits_from = sparse; seed 3 with low bits gives mostly-empty fields too
+                            let b: Vec<bool> = if *bits == 3 { vec![false; n] } else { bits_from(*bits, n) };
+                            let merged: Vec<bool> = b.iter().zip(net.peers[p].advertised.iter()).map(|(x, y)| *x || *y).collect();
+                            net.bitfield(w, p, &b);
+                            net.peers[p].advertised = merged;
+                            classes.push("repeated-bitfield");
                         }
                     }
                     Act::AskClient(i) => {
@@ -441,14 +454,14 @@ pub fn check(c: &Case) -> Outcome {
 pub fn def() -> PropDef {
     PropDef {
         id: "C01",
-        rule: "a torrent (piece length from {1,7,100,16383,16384,16385,20000,32768 (+40000,49153 thorough)}, 1-14 pieces, generated last-piece length) and up to 3 scripted peers with generated advertised subsets, driven by a global schedule of up to 60 steps; a step lets one peer answer one outstanding request correctly, with one bit flipped, with other bytes of the piece, at another offset, for another piece index, truncated, extended, or send a duplicate, a block for a request of an earlier assignment, an unrequested block, withhold, choke, unchoke, disconnect, join, announce a piece, or itself request a block from the client. After every barrier: every file in the store is <HEX-SHA1>.piece of a listed hash with that piece's length and content hashing to its name, nothing else appears, verified pieces never disappear; every Have status has its verified file; every Have / bitfield bit / Piece frame the client wrote refers to a piece verified on disk at that barrier (and served bytes are the content); reservations are backed by live fetchers. Finally an honest peer must be able to complete the download and the real Extractor must reproduce the content. Non-trivial = at least one bad block was sent and either an assembled piece failed its hash or some piece was completed; distinct by hash of the case.",
+        rule: "a torrent (piece length from {1,7,100,16383,16384,16385,20000,32768 (+40000,49153 thorough)}, 1-14 pieces, generated last-piece length) and up to 3 scripted peers with generated advertised subsets, driven by a global schedule of up to 60 steps; a step lets one peer answer one outstanding request correctly, with one bit flipped, with other bytes of the piece, at another offset, for another piece index, truncated, extended, or send a duplicate, a block for a request of an earlier assignment, an unrequested block, withhold, choke, unchoke, disconnect, join, announce a piece, repeat its bitfield (also an empty one), or itself request a block from the client. After every barrier: every file in the store is <HEX-SHA1>.piece of a listed hash with that piece's length and content hashing to its name, nothing else appears, verified pieces never disappear; every Have status has its verified file; every Have / bitfield bit / Piece frame the client wrote refers to a piece verified on disk at that barrier (and served bytes are the content); reservations are backed by live fetchers. Finally an honest peer must be able to complete the download and the real Extractor must reproduce the content. Non-trivial = at least one bad block was sent and either an assembled piece failed its hash or some piece was completed; distinct by hash of the case.",
         assumptions: &["observation granularity is the quiescence barrier: 'advertised only after stored' is checked as 'stored at the barrier in which the advertisement was read'"],
         subs: vec![Sub {
             name: "adversary",
             cases: |t| t.pick(15_000, 200_000),
             run: |ctx| run_proptest(ctx, "adversary", strategy(ctx.tier), check),
             replay: |v| replay_case::<Case>(v, check),
-            min_class: &[("corrupt-block", 0.2518), ("assembled-piece-failed-hash", 0.2), ("right-data-wrong-offset", 0.05), ("wrong-piece-index", 0.05), ("client-served-a-block", 0.05), ("disconnect", 0.2), ("stale-block", 0.03), ("duplicate-block", 0.1)],
+            min_class: &[("corrupt-block", 0.2518), ("assembled-piece-failed-hash", 0.2), ("right-data-wrong-offset", 0.05), ("wrong-piece-index", 0.05), ("client-served-a-block", 0.05), ("disconnect", 0.2), ("stale-block", 0.03), ("duplicate-block", 0.1), ("repeated-bitfield", 0.1)],
         }],
     }
 }
